@@ -664,7 +664,9 @@ def run_corpus(c):
 def replay(c, rp):
     """re-run the deterministic parts (proofs, corpus, kernel enumeration, probes) and show the
     recorded failing inputs"""
-    c.prove()
+    from .translate import gen_update_bounds
+
+    c.prove(extra=gen_update_bounds(c))  # + update_bounds translated from the source on every run
     for f in rp.get("failures", []) + rp.get("correspondence_disagreements", []):
         print("recorded:", f["what"])
     run_corpus(c)
@@ -691,7 +693,9 @@ def run(c):
         "goal priorities are ints; goal sizes of goals sharing a function key agree",
         "violation_tolerance is left at its default (inf); the branch it guards is not modelled",
     ]
-    c.prove()
+    from .translate import gen_update_bounds
+
+    c.prove(extra=gen_update_bounds(c))  # + update_bounds translated from the source on every run
     run_corpus(c)
     stream_update_bounds(c)
     stream_validate(c, c.n(400, 12000))
